@@ -29,6 +29,9 @@ type stringReader struct{}
 
 func (v stringReader) Read(r io.Reader) ([]byte, error) {
 	str, err := basic.ReadString(r)
+	if err != nil {
+		return nil, err
+	}
 	var buf bytes.Buffer
 	err = basic.WriteString(str, &buf)
 	return buf.Bytes(), err
